@@ -91,6 +91,14 @@ def r02c(model: Model, rr: RuleResult):
     else:
         rr.bad(tfi, mig[0], "a paint attribute is moved from <use> elements to the shared target without requiring that all uses carry the same value: "
                "other users of the target would change colour", construct=f"target.attrib[attr_name] = values[0] under {facts}")
+    # ... and only onto a target that is not itself rendered (one parked in <defs>): a target drawn in place would be repainted
+    allf = [(norm(e), pol) for e, pol in guard_facts(tcfg, tcfg.node_for(mig[0]))]
+    in_defs = any(("defs" in t and "target" in t) for t, pol in allf)
+    if in_defs:
+        rr.ok("paint attributes move only onto targets parked in <defs> (a target drawn in place keeps its own paint)")
+    else:
+        rr.bad(tfi, mig[0], "a paint attribute shared by all <use> copies is moved onto their target even when that target is itself drawn in place: "
+               "a black shape followed by two identical red copies comes out red", construct="_tidy_use_elements: migration onto a rendered target")
     gb = [c for c in calls_in(tfi) if norm(c.func) == "groupby"]
     if len(gb) == 1 and isinstance(gb[0].args[0], ast.Name) and kwarg(gb[0], "key") is not None:
         defs = tcfg.reaching(tcfg.node_for(gb[0]), gb[0].args[0].id)
@@ -197,6 +205,11 @@ def r02d(model: Model, rr: RuleResult):
     ro = find_calls(efi, "reorder_glyphs")
     if len(ro) == 1 and [norm(a) for a in ro[0].args] == ["ttfont", "glyph_order"]:
         rr.ok("font reordered with the same glyph_order that was used for numbering")
+        if ecfg.postdominates(ecfg.node_for(ro[0]), ecfg.entry):
+            rr.ok("every normal path through the renumbering step reaches reorder_glyphs (no early return)")
+        else:
+            rr.bad(efi, ro[0], "the renumbering step can return without renumbering/reordering: documents are emitted in group order, so their "
+                   "start glyph ids are no longer increasing and ids recorded in the documents may be stale", construct="_ensure_groups_grouped_in_glyph_order: path that skips reorder_glyphs")
     else:
         rr.bad(efi, efi.node, "font is not reordered with the computed glyph order", construct="reorder_glyphs call")
 
